@@ -631,15 +631,15 @@ func checkC18(c *Ctx) {
 	// the accessor uses the name unchanged
 	if fn := c.Fn("H2.lookup", "efivarfs.(*Efivarfs).GetBootEntry"); fn != nil {
 		ok, det := false, "no store of the option parameter to the variable's Name"
-		instrsOf(fn, func(i ssa.Instruction) {
-			if st, isSt := i.(*ssa.Store); isSt && ir.FieldID(st.Addr) == M+"/efivar.Efivar.Name" {
-				if st.Val == ssa.Value(fn.Params[1]) {
-					ok = true
-				} else {
-					det = "the name handed to the accessor is transformed before the lookup"
-				}
+		dv := c.deepViewOf(fn, 3)
+		for _, di := range dv.storesToField(M + "/efivar.Efivar.Name") {
+			st := di.i.(*ssa.Store)
+			if r := dv.resolve(st.Val, di.fr); r.fr == dv.root && r.v == ssa.Value(fn.Params[1]) {
+				ok = true
+			} else {
+				det = "the name handed to the accessor is transformed before the lookup"
 			}
-		})
+		}
 		c.R.Check(ok, "H2.lookup", name(fn), "name-unchanged", c.Pos(fn.Pos()), "the boot-entry accessor looks up exactly the name it is given", det)
 	}
 	// G5: node layouts
